@@ -12,7 +12,7 @@ func init() {
 		ID:          "C13",
 		Run:         runC13,
 		MinObl:      22,
-		Explanation: "Decided: R1 pipeline — every non-PAR success exit of NewAuthorizeRequest requires: client lookup nil; the request-object step nil; ParseResponseMode nil; the redirect matcher's nil error and IsValidRedirectURI; a registered response-type combination matched with Arguments.Matches (set equality); the response mode default or equal to one of the client's registered modes; len(state) ≥ GetMinParameterEntropy; and openid ⇒ redirect_uri present; R2 grant gates: every access-token issuance in an authorization-endpoint handler (OAuth2 implicit, OIDC implicit, hybrid) and the ID-token issuance of the OIDC implicit handler require Has(grant types, implicit); hybrid code issuance and the code-flow token validation require Has(grant types, authorization_code) (observed, not claimed: hybrid 'code id_token' issues its ID token under the authorization_code gate only); R3 nonce: OIDC implicit issues only with len(nonce) ≥ minimum entropy > 0; hybrid requires a nonce when id_token is requested and ≥ minimum entropy when one is present; R4 request objects: the key function returns the none opt-in constant only under (registered alg empty ∨ equal to the header alg) ∧ method none, asymmetric arms obtain the key through the client's JWKS lookup, other algorithms fail; request_uri is fetched only if listed in the client's request URIs; success requires Claims.Valid()==nil; R5 placement: handlers set the default response mode to fragment before issuing access/ID tokens; NewAuthorizeResponse succeeds only if all response types were handled and not (default fragment ∧ mode query); the writer's query arm is reached only for mode query/default; R6 state echo: every issuing handler adds state=GetState(request) and the error writer sets it before redirecting. NOT decided: the bytes written, go-jose verification.",
+		Explanation: "Decided: R1 pipeline — every non-PAR success exit of NewAuthorizeRequest requires: client lookup nil; the request-object step nil; ParseResponseMode nil; the redirect matcher's nil error and IsValidRedirectURI; a registered response-type combination matched with Arguments.Matches (set equality); the response mode default or equal to one of the client's registered modes; len(state) ≥ GetMinParameterEntropy; and openid ⇒ redirect_uri present; R2 grant gates: every access-token issuance in an authorization-endpoint handler (OAuth2 implicit, OIDC implicit, hybrid) and the ID-token issuance of the OIDC implicit handler require Has(grant types, implicit); hybrid code issuance and the code-flow token validation require Has(grant types, authorization_code) (observed, not claimed: hybrid 'code id_token' issues its ID token under the authorization_code gate only); R3 nonce: OIDC implicit issues only with len(nonce) ≥ minimum entropy > 0; hybrid requires a nonce when id_token is requested and ≥ minimum entropy when one is present; R4 request objects: the key function returns the none opt-in constant only under (registered alg empty ∨ equal to the header alg) ∧ method none, asymmetric arms obtain the key through the client's JWKS lookup, other algorithms fail; request_uri is fetched only if listed in the client's request URIs; success requires Claims.Valid()==nil; R5 placement: handlers set the default response mode to fragment before issuing access/ID tokens; NewAuthorizeResponse succeeds only if all response types were handled and not (default fragment ∧ mode query); the writer's query arm is reached only for mode query/default; R6 state echo: every issuing handler adds state=GetState(request) and the error writer sets it before redirecting. R4 also: after request-object claims were merged into the form, request.State is read from the merged form (evaluation clock); R6 SetDefaultResponseMode records its argument in DefaultResponseMode on every path, so the query-mode guard of NewAuthorizeResponse always has a default to compare with. NOT decided: the bytes written, go-jose verification.",
 	})
 }
 
@@ -29,6 +29,7 @@ func runC13(c *Ctx) {
 	c13R4(c)
 	c13R5(c)
 	c13ErrState(c)
+	c13Setter(c)
 }
 
 // requestObjectFn: the helper of the authorization endpoint that parses OIDC request objects (role, not name).
@@ -401,6 +402,39 @@ func c13R4(c *Ctx) {
 				okV, wV = false, p
 			}
 		}
+	}
+	// the request's state is (re-)read after the request object's claims were merged into the form,
+	// so that a state carried by the object is the one echoed (and the one whose length is checked)
+	okSt, nSt := true, 0
+	var wSt *Path
+	for _, p := range ex.Paths {
+		if !p.Success() || p.Kind != "return" || p.First("jwt.ParseWithClaims") == nil {
+			continue
+		}
+		lastSet := -1
+		for _, e := range p.Calls(".Set") {
+			// the merge loop: form.Set(<claim name>, ...) for every claim of the object
+			if e.Recv != nil && e.Recv.Op == "field" && e.Recv.Name == "Form" && e.Arg(0).Op == "rangekey" {
+				lastSet = e.Idx
+			}
+		}
+		if lastSet < 0 {
+			continue
+		}
+		nSt++
+		fresh := false
+		for _, e := range p.Events {
+			if e.Kind == "store" && e.Name == "State" && len(e.Args) == 2 {
+				v := e.Args[1]
+				fresh = v.IsCall(".Get") && len(v.Args) == 2 && v.Args[1].Key() == tStr("state").Key() && v.Clock > lastSet
+			}
+		}
+		if !fresh {
+			okSt, wSt = false, p
+		}
+	}
+	if nSt > 0 {
+		c.Check(okSt, rule, role, ro, "state-read-after-merge", "after request-object claims were merged into the form, request.State is read from the merged form", "State keeps a value read before the merge (the echoed state and the form disagree)", wSt)
 	}
 	c.Check(okU && nFetch > 0, rule, role, ro, "request-uri-whitelisted", "a request_uri is fetched only if it is listed in the client's registered request URIs", "the HTTP fetch is reachable without the whitelist test", wU)
 	c.Check(okV && nS > 0, rule, role, ro, "claims-valid", "request-object parameters are honoured only if parsing/verification returned nil and Claims.Valid()==nil", "success without those literals", wV)
